@@ -314,6 +314,29 @@ func c05Work(c *engine.Ctx) {
 			}
 		})
 	}
+	// expressions in every head position of every loop/branch statement (the `in` operator is restricted in a for
+	// head; WhileToFor prints while-loops as for-loops, so what a while head accepts must survive a for head)
+	{
+		exprs := []string{"a", "a in b", "(a in b)", "a in b in c", "!(a in b)", "a, b in c", "a = b in c", "a ? b in c : d", "a && b in c", "[a in b]", "{p: a in b}", "f(a in b)", "a[b in c]",
+			"x => x in y", "(x => x in y)", "function () { return a in b; }", "`${a in b}`", "a instanceof b", "a of b", "async", "let", "of", "new a", "new a(b in c)", "a?.[b in c]", "class { [a in b]() {} }", "await a in b", "yield a in b"}
+		heads := []string{"while (%s) c;", "do c; while (%s);", "do c; while (%s) d;", "for (; %s;) c;", "for (;; %s) c;", "for (%s;;) c;", "for (var v = %s;;) c;", "for (let v = %s, w;;) c;",
+			"for (v of %s) c;", "for (v in %s) c;", "for (var v in %s) c;", "for (const v of %s) c;", "if (%s) c;", "if (%s) c; else d;", "switch (%s) { case %s: c; }", "l: while (%s) { continue l; }",
+			"while (%s) while (%s) c;", "if (a) while (%s) c; else d;", "for (var v = function () { for (; %s;) c; };;) c;"}
+		wraps := [][2]string{{"", ""}, {"function g() {", "}"}, {"async function* g() {", "}"}, {"x = () => {", "};"}, {"class C { static {", "} }"}}
+		for _, e := range exprs {
+			for _, h := range heads {
+				for _, w := range wraps {
+					k++
+					if !c.Mine(k) {
+						continue
+					}
+					all([]byte(w[0] + strings.ReplaceAll(h, "%s", e) + w[1]))
+					c.Count("loop-head-family", 1)
+					c.Count("distinct_nontrivial", 1)
+				}
+			}
+		}
+	}
 	// several preserved comments in one statement list, at every nesting level
 	for _, body := range []string{"/*! a */ /*! b */ x;", "/*! a */ x; /*! b */ y; /*! c */", "/*! a */\n/*! b */\n/*! c */", "x; /*! a *//*! b */", "//! a\n//! b\nx;", "/*! a */ //! b\n/*! c */ x;"} {
 		for depth := 0; depth <= 3; depth++ {
@@ -366,7 +389,7 @@ func c05Finish(c *engine.Ctx, cov map[string]interface{}) string {
 func init() {
 	register(&engine.Check{
 		ID: "C05", Level: "exploration",
-		Rule:        "every valid-UTF-8 string ≤4 (5) atoms over the JS core alphabet and ≤2 (3) over the full one, every single-edit neighbour of ~150 seed programs, every (third) ordered pair of seeds joined by newline/semicolon/space, and the literal family (13 literals containing line breaks or escapes × 11 syntactic positions × 8 block wrappers × nesting depth 0..3) × 4 Options: for each input js.Parse accepts, AST.JS() must be accepted again, print identically a second time, give the same String() tree once *GroupExpr nodes are removed from both trees (reflection rewrite), and contain every string/template/regexp/numeric literal, kept comment and directive of the tree byte for byte",
+		Rule:        "every valid-UTF-8 string ≤4 (5) atoms over the JS core alphabet and ≤2 (3) over the full one, every single-edit neighbour of ~150 seed programs, every (third) ordered pair of seeds joined by newline/semicolon/space, the loop-head family (28 expressions × 19 loop/branch heads × 5 function contexts, centred on the `in` operator) and the literal family (13 literals containing line breaks or escapes × 11 syntactic positions × 8 block wrappers × nesting depth 0..3) × 4 Options: for each input js.Parse accepts, AST.JS() must be accepted again, print identically a second time, give the same String() tree once *GroupExpr nodes are removed from both trees (reflection rewrite), and contain every string/template/regexp/numeric literal, kept comment and directive of the tree byte for byte",
 		Assumptions: []string{"the same Options are used for the second parse", "literal bytes are taken from the first tree's nodes (they alias the source)"},
 		Setup:       c05Setup, Work: c05Work, Finish: c05Finish,
 	})
